@@ -21,29 +21,29 @@ type Sub struct {
 
 // Fact is the main fact type. Every field is exported so the engine can reach it.
 type Fact struct {
-	I8  int8
-	I16 int16
-	I32 int32
-	I64 int64
-	I   int
-	U8  uint8
-	U16 uint16
-	U32 uint32
-	U64 uint64
-	U   uint
-	F32 float32
-	F64 float64
-	S   string
-	S2  string
-	B   bool
-	B2  bool
-	T   time.Time
-	T2  time.Time
-	PI  *int64
-	PF  *float64
-	Sub *Sub
-	Val Sub
-	Any interface{} // holds *Sub (distinct object from Sub)
+	I8   int8
+	I16  int16
+	I32  int32
+	I64  int64
+	I    int
+	U8   uint8
+	U16  uint16
+	U32  uint32
+	U64  uint64
+	U    uint
+	F32  float32
+	F64  float64
+	S    string
+	S2   string
+	B    bool
+	B2   bool
+	T    time.Time
+	T2   time.Time
+	PI   *int64
+	PF   *float64
+	Sub  *Sub
+	Val  Sub
+	Any  interface{} // holds *Sub (distinct object from Sub)
 	AnyN interface{} // holds a number, string, bool or time (C19 only; not serialised)
 
 	Arr   []int64
@@ -75,10 +75,10 @@ type Fact struct {
 type FailMode int
 
 const (
-	FailNone   FailMode = iota
-	FailPanic           // panic("probe failure")
-	FailCancel          // invoke Cancel() and then return normally
-	FailNilDeref        // dereference a nil pointer (runtime panic)
+	FailNone     FailMode = iota
+	FailPanic             // panic("probe failure")
+	FailCancel            // invoke Cancel() and then return normally
+	FailNilDeref          // dereference a nil pointer (runtime panic)
 )
 
 // ProbeCall records one invocation.
